@@ -24,7 +24,11 @@ process   ``r.spawnProcess(pp, exe, args, env, path, ...) -> FakeProcess`` (also
           once ended), ``stdin_closed``, ``lose_calls``, ``closed_fds``, ``stdin`` writes.
           Harness side: ``p.emit_out(b)``, ``p.emit_err(b)``, ``p.emit_fd(fd, b)``,
           ``p.exit(code=0)`` / ``p.exit(code=1)`` / ``p.exit(signal=15)`` (Twisted's
-          order: pipes close, ``processExited``, ``processEnded``).  Exceptions raised by
+          order: pipes close, ``processExited``, ``processEnded``).  ``p.exit(..., pipes_open=True)``
+          delivers only ``processExited`` (the child is reaped but something still holds its
+          stdio pipes); ``processEnded`` follows at ``p.pipes_closed()`` - or, like in Twisted,
+          in the next reactor turn (``callLater(0)``) after the protocol calls ``loseConnection()``
+          on the exited process.  ``p.alive`` (not reaped yet) / ``p.ended`` (processEnded delivered).  Exceptions raised by
           the process protocol are caught like a reactor would, kept in ``p.errors`` and
           returned.  ``p.on_signal = f(proc, name)`` lets a model react to signals.
 listen    ``r.listenTCP(port, factory, backlog, interface) -> FakePort`` (``r.ports``):
@@ -75,6 +79,8 @@ class FakeProcess(object):
         self.pid = pid
         self.extra = extra or {}
         self.alive = True
+        self.ended = False           # processEnded delivered
+        self._end_scheduled = False
         self.exit_reason = None
         self.signals = []            # every accepted signalProcess(name)
         self.signals_after_exit = [] # attempts after the process was gone
@@ -117,6 +123,11 @@ class FakeProcess(object):
         self.closed_fds.update((0, 1, 2))
         self.stdin_closed = True
         self.log.append(("loseConnection", None))
+        if not self.alive and not self.ended and not self._end_scheduled:
+            # our ends of the pipes are closed now: the reactor notices in its next turn and, the
+            # child being reaped already, reports the end
+            self._end_scheduled = True
+            self.reactor.callLater(0, self.pipes_closed)
 
     def write(self, data):
         self.stdin.append(data)
@@ -153,9 +164,10 @@ class FakeProcess(object):
     def emit_err(self, data):
         return self.emit_fd(2, data)
 
-    def exit(self, code=None, signal=None):
+    def exit(self, code=None, signal=None, pipes_open=False):
         """the child is gone: exit status `code`, or killed by `signal`.
-        Twisted's order: pipes close, processExited, processEnded."""
+        Twisted's order: pipes close, processExited, processEnded.  With `pipes_open` only
+        processExited is delivered now (see pipes_closed)."""
         assert self.alive, "process already ended"
         self.alive = False
         if signal is None and not code:
@@ -167,10 +179,25 @@ class FakeProcess(object):
         self.exit_reason = reason
         self.log.append(("exit", (code, signal)))
         errs = []
+        if pipes_open:
+            errs.append(self._call("processExited", reason))
+            return [e for e in errs if e is not None]
         for fd in (0, 1, 2):
             errs.append(self._call("childConnectionLost", fd))
         errs.append(self._call("processExited", reason))
+        self.ended = True
         errs.append(self._call("processEnded", reason))
+        return [e for e in errs if e is not None]
+
+    def pipes_closed(self):
+        """the last holder of the dead child's stdio pipes let go: processEnded is delivered"""
+        assert not self.alive, "the process has not exited"
+        if self.ended:
+            return []
+        self.ended = True
+        self.log.append(("pipes_closed", None))
+        errs = [self._call("childConnectionLost", fd) for fd in (0, 1, 2)]
+        errs.append(self._call("processEnded", self.exit_reason))
         return [e for e in errs if e is not None]
 
 
